@@ -116,12 +116,17 @@ class DecomposeTask(T.Task):
 class ReassembleTask(T.Task):
     """for every ACCEPTED IBAN x of country K: IBAN.from_bban(x.country_code, x.bban) == x"""
 
-    def __init__(self, cc):
-        from props.ibantasks import table
+    def __init__(self, cc, lenient=""):
+        from props.ibantasks import national_contract, table
         self.cc = cc
-        self.name = f"IBAN.from_bban(x.country_code, x.bban) == x [{cc}]"
+        self.lenient = bool(lenient)
+        self.name = f"IBAN.from_bban(x.country_code, x.bban{', allow_invalid=True' if self.lenient else ''}) == x [{cc}]"
         self.L = table()[cc]["bban_length"]
         self.contracts = _contracts(self.L)
+        if self.lenient:
+            # re-assembly must not depend on the national check: if the flag were (wrongly) passed on, this contract
+            # makes the national verdict arbitrary
+            self.contracts["schwifty.bban.BBAN.validate_national_checksum"] = national_contract
 
     def setup(self, I):
         b, self.cl = CC.sym_bban(I, self.cc)
@@ -135,7 +140,8 @@ class ReassembleTask(T.Task):
     def code(self, I, inp):
         from schwifty import IBAN
         obj = I.call(IBAN, [self.p], {})
-        r = I.call(I.getattr(IBAN, "from_bban"), [I.getattr(obj, "country_code"), I.getattr(obj, "bban")], {})
+        r = I.call(I.getattr(IBAN, "from_bban"), [I.getattr(obj, "country_code"), I.getattr(obj, "bban")],
+                   {"allow_invalid": True} if self.lenient else {})
         return ("REBUILT", payload(r))
 
     def custom_obligations(self, I, inp, code_paths, cobs):
@@ -163,7 +169,10 @@ class ReassembleTask(T.Task):
             x = IBAN(p)
         except SchwiftyException:
             return True, "rejected", "rejected"
-        r = IBAN.from_bban(x.country_code, x.bban)
+        try:
+            r = IBAN.from_bban(x.country_code, x.bban, allow_invalid=True) if self.lenient else IBAN.from_bban(x.country_code, x.bban)
+        except SchwiftyException as ex:
+            return False, f"raises {type(ex).__name__}", p
         return r == x and str(r) == p, str(r), p
 
     def sample(self, rnd):
@@ -267,6 +276,7 @@ def main(seed, tier):
     t0 = time.time()
     ccs = sorted(ibantasks.table())
     specs = [("props.c11", "DecomposeTask", (cc,)) for cc in ccs] + [("props.c11", "ReassembleTask", (cc,)) for cc in ccs]
+    specs += [("props.c11", "ReassembleTask", (cc, "lenient")) for cc in ("DE", "BE", "NO", "FR", "GB")]
     specs += [("props.c11", "BicPartsTask", (n,)) for n in (8, 11)] + [("props.c11", "BicAcceptedPartsTask", ())]
     results = common.run_tasks(specs, seed, tier)
     from props.c01 import ASSUMPTIONS
